@@ -320,6 +320,34 @@ func genC07(out, tier string, rng *rand.Rand) {
 		}
 		sink.AddPre(c.pseudo(), c.coq(), js, nt)
 	}
+	// stored versions never change: composites built from a shared first source (snapshot, then append),
+	// same-size recomposes and copies, read back afterwards -- generation and content belong together
+	{
+		up := func(n, d string) Req {
+			return Req{Kind: "upload_media", B: c07B, N: n, CType: "text/plain", Data: []byte(d), CP: noConds}
+		}
+		comp := func(dst string, srcs ...string) Req {
+			r := Req{Kind: "compose", B: c07B, N: dst, Up: &UpMeta{CType: "x/composed"}, CP: noConds}
+			for _, s := range srcs {
+				r.Srcs = append(r.Srcs, Src{Name: s, Cond: Raw("")})
+			}
+			return r
+		}
+		rd := func(n string) []Req {
+			return []Req{{Kind: "get_media", B: c07B, N: n}, {Kind: "get_meta", B: c07B, N: n}}
+		}
+		progs := append(sameSizePrograms(),
+			append(append(append([]Req{up("log", "line1;"), up("trailer", "<EOF>;"), up("part2", "line2;"), comp("snap", "log", "trailer")}, rd("snap")...), comp("log", "log", "part2")), append(rd("snap"), rd("log")...)...),
+			append(append([]Req{up("base", "B;"), up("p1", "one"), up("p2", "two"), up("p3", "three"), comp("d1", "base", "p1"), comp("d2", "base", "p2"), comp("d3", "base", "p3")}, rd("d1")...), append(rd("d2"), rd("d3")...)...))
+		for _, mk := range stores() {
+			for _, prog := range progs {
+				o := runProg(mk, prog)
+				c := Case{Store: mk.name, Tag: "stored-versions", Prog: prog, Obs: o}
+				js, _ := json.Marshal(c)
+				sink.AddPreV("seq", "check_all", "(list req * list resp)", c, c.coq(), js, true)
+			}
+		}
+	}
 	// a request abandoned by its client while it waits for the object lock must not be performed
 	// (oracle only: the interleaving model has no cancellation)
 	for _, mk := range stores() {
